@@ -321,7 +321,10 @@ func mergeShard(m *Merged, spec *Spec, shard int, work string, st shardStatus, a
 			for _, rep := range ParseRaceLog(string(rb)) {
 				m.RaceReports[rep.Sig]++
 				m.Counters["race_reports"]++
-				if rep.InFiles(spec.RaceFiles) {
+				if rep.HarnessOnly() {
+					m.Notes = append(m.Notes, "race report whose both accesses are made by harness code (harness defect, not judged): "+rep.Sig)
+					m.Counters["harness_race_reports"]++
+				} else if rep.InFiles(spec.RaceFiles) {
 					dup := false
 					for _, o := range m.Violations {
 						if o.Sig == rep.Sig {
@@ -333,9 +336,6 @@ func mergeShard(m *Merged, spec *Spec, shard int, work string, st shardStatus, a
 							Msg: "data race reported by the Go race detector: " + rep.Sig, Case: lastCase,
 							Replay: map[string]interface{}{"report": TrimDump(rep.Text, 6000)}})
 					}
-				} else if rep.HarnessOnly() {
-					m.Notes = append(m.Notes, "race report with frames only in the harness (harness defect, not judged): "+rep.Sig)
-					m.Counters["harness_race_reports"]++
 				}
 			}
 			os.Remove(f)
@@ -419,7 +419,9 @@ func ParseRaceLog(s string) []RaceReport {
 			if inAccess {
 				if mm := raceFnRe.FindStringSubmatch(l); mm != nil && i+1 < len(lines) {
 					if fm := raceFileRe.FindStringSubmatch(lines[i+1]); fm != nil {
-						cur = append(cur, mm[1]+"@"+fm[1])
+						if strings.HasPrefix(mm[1], "verifharness/") || strings.Contains(mm[1], "frobnitzem/go-p9p") {
+							cur = append(cur, mm[1]+"@"+fm[1])
+						}
 					}
 				}
 			}
@@ -465,15 +467,16 @@ func (r RaceReport) InFiles(files []string) bool {
 	return false
 }
 
+// HarnessOnly: both racing accesses are made by harness code (the innermost recorded
+// frame of each stack belongs to the harness, whatever library frames lie further out).
+// Such a report is a defect of the harness, not an observation about the repository.
 func (r RaceReport) HarnessOnly() bool {
 	for _, st := range r.Frames {
-		for _, fr := range st {
-			if strings.Contains(fr, "frobnitzem/go-p9p") {
-				return false
-			}
+		if len(st) == 0 || !strings.HasPrefix(st[0], "verifharness/") {
+			return false
 		}
 	}
-	return true
+	return len(r.Frames) > 0
 }
 
 // ---------------------------------------------------------------- known findings
